@@ -187,7 +187,7 @@ class Harness:
             gpu = cfg['cls'] == 'gpu'
             sched = cfg.get('sched') or {'mode': 'order', 'kind': 'canonical'}
             self.repo_launcher = gpu and sched.get('mode') == 'repo'
-            kw = dict(sims=int(self.case['sims']), c_caps=self.caps(), a_ctrl=self.a_ctrl(), c_reuse=bool(cfg.get('c_reuse')), strip_forks=bool(cfg.get('strip_forks')))
+            kw = dict(sims=int(cfg.get('sims', self.case['sims'])), c_caps=self.caps(), a_ctrl=self.a_ctrl(), c_reuse=bool(cfg.get('c_reuse')), strip_forks=bool(cfg.get('strip_forks')))
             cls = ws.WaveSimCuda if gpu else ws.WaveSim
             sim = cls(self.circuit, self.delays_array(), **kw)
             self.sim = sim
@@ -200,6 +200,12 @@ class Harness:
             self.use_proxies = bool(self.monitors) or (gpu and sched.get('mode') == 'interleave') or bool(cfg.get('snapshots'))
             if cfg.get('snapshots'): mon.snap_cb = self.snapshot
             if gpu and 'block' in cfg: sim._block_dim = tuple(int(v) for v in cfg['block'])
+            sc = cfg.get('simctl')
+            if sc is not None:
+                sci = unwrap(sim.simctl_int)
+                sci[1] = int(sc['mode'])
+                if sc.get('per_lane') is not None:
+                    for lane in range(sci.shape[1]): sci[0, lane] = int(sc['per_lane'][lane % len(sc['per_lane'])])
             if self.use_proxies:
                 mon.attach_c(unwrap(sim.c))
                 sim.c = Proxy(unwrap(sim.c), mon, 'c')
@@ -383,11 +389,11 @@ class Harness:
     def run_batch(self, batch, bno):
         sim, meta, mon, res = self.sim, self.meta, self.mon, self.res
         cfg = self.cfg
-        self.assign(batch)
+        if not batch.get('keep_s'): self.assign(batch)
         mon.prop_id += 1
         self.produced = {}
         sim.s_to_c()
-        self.write_custom(batch)
+        if not batch.get('keep_s'): self.write_custom(batch)
         if mon.tag_prod is not None:
             idx = [i for i in range(len(meta.snodes)) if meta.c_locs[meta.ppi_offset + i] >= 0]
             mon.tag_inputs(unwrap(sim.c), idx, [int(meta.c_locs[meta.ppi_offset + i]) for i in idx], n=4)
@@ -397,13 +403,14 @@ class Harness:
         if rp is not None and not getattr(self, '_permuted', False):
             self.permute_rows(rp)
             self._permuted = True
-        k = batch.get('k')
+        k = cfg.get('k', batch.get('k'))
+        seed = int(cfg.get('seed', batch.get('seed', 1)))
         mon.k_lanes = int(k) if k else None
         self.level_no = 0
         self.in_prop = True
         try:
-            if k: sim.c_prop(sims=int(k), seed=int(batch.get('seed', 1)))
-            else: sim.c_prop(seed=int(batch.get('seed', 1)))
+            if k: sim.c_prop(sims=int(k), seed=seed)
+            else: sim.c_prop(seed=seed)
         finally:
             self.in_prop = False
         mon.k_lanes = None
